@@ -1,6 +1,7 @@
 """C07 — client-side response reception is faithful and fragmentation-invariant."""
 import json
 import httpgen as G
+import cligen
 from vlib import hexs, unhex
 
 
@@ -106,11 +107,16 @@ def run(chk):
     chk.cov["input_distribution"] = dist
     chk.cov["samples"] = [pairs[j][0][:300] + " => " + pairs[j][2][:160] for j in (0, len(pairs) // 2) if j < len(pairs)]
     chk.cov["traces_validated_against_impl"] = len(pairs)
+    # the real http_client over the simulated socket: connection-level histories
+    cligen.run(chk)
     chk.assumptions += ["responses framed by connection close (no Content-Length, not chunked) are outside the property"]
 
 
 def replay(body):
     import vlib
+    rc = cligen.replay(body)
+    if rc is not None:
+        return rc
     r = body["replay"]
     case = r.get("case")
     if not case:
